@@ -33,6 +33,8 @@ pub fn def() -> PropDef {
 pub enum Key {
     Score,
     Num(bool),
+    /// the multi-valued copy of `num` (documented: only the first value counts)
+    MNum(bool),
     Fnum(bool),
     Date(bool),
     Str(bool),
@@ -106,6 +108,7 @@ impl Sub for TopK {
         let key = prop_oneof![
             6 => Just(Key::Score),
             2 => any::<bool>().prop_map(Key::Num),
+            1 => any::<bool>().prop_map(Key::MNum),
             1 => any::<bool>().prop_map(Key::Fnum),
             1 => any::<bool>().prop_map(Key::Date),
             1 => any::<bool>().prop_map(Key::Str),
@@ -166,7 +169,7 @@ impl Sub for TopK {
     }
     fn mandatory_labels(&self, _t: Tier) -> Vec<&'static str> {
         vec![
-            "key:Score", "key:Num", "key:Str", "key:Tweak", "key:NumThenScore", "tie_at_cut", "segments>=3", "k<matches", "offset>0", "offset_beyond_end", "union_of_terms", "intersection_of_terms",
+            "key:Score", "key:Num", "key:MNum", "key:Str", "key:Tweak", "key:NumThenScore", "tie_at_cut", "segments>=3", "k<matches", "offset>0", "offset_beyond_end", "union_of_terms", "intersection_of_terms",
             "threads4", "paging", "docs>1024", "missing_key_values",
         ]
     }
@@ -212,7 +215,7 @@ impl Sub for TopK {
                 _ => n + 3,
             };
             cx.evals(1);
-            cx.label(&format!("key:{}", match p.key { Key::Score => "Score", Key::Num(_) => "Num", Key::Fnum(_) => "Fnum", Key::Date(_) => "Date", Key::Str(_) => "Str", Key::Tweak => "Tweak", Key::NumThenScore => "NumThenScore" }));
+            cx.label(&format!("key:{}", match p.key { Key::Score => "Score", Key::Num(_) => "Num", Key::MNum(_) => "MNum", Key::Fnum(_) => "Fnum", Key::Date(_) => "Date", Key::Str(_) => "Str", Key::Tweak => "Tweak", Key::NumThenScore => "NumThenScore" }));
             cx.label_if(k < n, "k<matches");
             cx.label_if(o > 0, "offset>0");
             cx.label_if(o >= n, "offset_beyond_end");
@@ -282,7 +285,7 @@ impl Sub for TopK {
                         }
                     }
                 }
-                Key::Num(asc) | Key::Fnum(asc) | Key::Date(asc) | Key::Str(asc) => {
+                Key::Num(asc) | Key::MNum(asc) | Key::Fnum(asc) | Key::Date(asc) | Key::Str(asc) => {
                     let order = if asc { Order::Asc } else { Order::Desc };
                     // keys from the model (true key of the document), comparable as (Option<i64>) or Option<String>
                     let keyed: Vec<(Option<i64>, DocAddress)> = all
@@ -290,7 +293,7 @@ impl Sub for TopK {
                         .map(|(_, a)| {
                             let d = by_uid[&um.uid(*a)];
                             let kx = match p.key {
-                                Key::Num(_) => d.num.map(|x| x as i64),
+                                Key::Num(_) | Key::MNum(_) => d.num.map(|x| x as i64),
                                 Key::Fnum(_) => d.fnum.map(|x| x as i64),
                                 Key::Date(_) => d.date.map(|x| x as i64),
                                 _ => d.s.map(|x| x as i64),
@@ -323,6 +326,7 @@ impl Sub for TopK {
                     let td = TopDocs::with_limit(k).and_offset(o);
                     let got: Vec<(Option<i64>, DocAddress)> = match p.key {
                         Key::Num(_) => searcher.search(&*tq, &td.order_by_fast_field::<u64>("num", order)).or_fail("search_failed")?.into_iter().map(|(v, a)| (v.map(|x| x as i64), a)).collect(),
+                        Key::MNum(_) => searcher.search(&*tq, &td.order_by_fast_field::<u64>("mnum", order)).or_fail("search_failed")?.into_iter().map(|(v, a)| (v.map(|x| x as i64), a)).collect(),
                         Key::Fnum(_) => searcher
                             .search(&*tq, &td.order_by_fast_field::<f64>("fnum", order))
                             .or_fail("search_failed")?
@@ -362,6 +366,7 @@ impl Sub for TopK {
                         loop {
                             let page: Vec<DocAddress> = match p.key {
                                 Key::Num(_) => searcher.search(&*tq, &TopDocs::with_limit(k).and_offset(off).order_by_fast_field::<u64>("num", order)).or_fail("search_failed")?.into_iter().map(|x| x.1).collect(),
+                                Key::MNum(_) => searcher.search(&*tq, &TopDocs::with_limit(k).and_offset(off).order_by_fast_field::<u64>("mnum", order)).or_fail("search_failed")?.into_iter().map(|x| x.1).collect(),
                                 Key::Fnum(_) => searcher.search(&*tq, &TopDocs::with_limit(k).and_offset(off).order_by_fast_field::<f64>("fnum", order)).or_fail("search_failed")?.into_iter().map(|x| x.1).collect(),
                                 Key::Date(_) => searcher
                                     .search(&*tq, &TopDocs::with_limit(k).and_offset(off).order_by_fast_field::<tantivy::DateTime>("date", order))
